@@ -273,6 +273,10 @@ def cmd_check(prop, tier, seed, runs=None, wall=None, workers=None, first_index=
         "samples": agg["samples"] or [{"note": "no clean run to sample"}],
         "steps": agg["steps"],
         "distinct_states_by_model_fingerprint": len(agg["states"]),
+        "distinct_schedules": len(agg["schedules"]),
+        "distinct_schedules_measure": "distinct sequences of (operation, task, slots, interrupted?, "
+                                      "backend failure point) over a whole run, i.e. distinct interleavings "
+                                      "of client operations, lazy-task steps and injected faults",
         "runs_requested": n_runs, "runs_submitted": agg["submitted"],
         "wall_capped": agg["wall_capped"],
         "runs_per_hour": int(agg["runs"] / max(agg["wall_s"], 1e-9) * 3600),
